@@ -48,7 +48,7 @@ class Skeleton:
         occurrence of the statement in the source ("true"/"false" or the name of a fresh parameter);
         consts: effect text -> (variable, value): `return variable` then returns that value"""
         self.name, self.atoms, self.effects, self.rets = name, atoms, set(effects), rets
-        self.sets = {k: (v[0], list(v[1])) for k, v in (sets or {}).items()}
+        self.sets = {k: ([(a, list(t)) for a, t in v] if isinstance(v, list) else [(v[0], list(v[1]))]) for k, v in (sets or {}).items()}
         self.consts = dict(consts or {})
         self.flag_effects = dict(flag_effects or {})       # effect text -> flag it raises (what the call stores)
         self.node_term = {}
@@ -141,14 +141,17 @@ class Skeleton:
             return self.stmts(list(s[1]) + rest, env, ind)
         if s[0] == "expr" and cmini.show(s[1]) in self.sets:
             t = cmini.show(s[1])
-            atom, terms = self.sets[t]
             if id(s) not in self.node_term:
-                if not terms:
-                    raise PipelineError("%s: more occurrences of `%s` than expected" % (self.name, t))
-                self.node_term[id(s)] = terms.pop(0)
+                picked = []
+                for atom, terms in self.sets[t]:
+                    if not terms:
+                        raise PipelineError("%s: more occurrences of `%s` than expected" % (self.name, t))
+                    picked.append((atom, terms.pop(0)))
+                self.node_term[id(s)] = picked
             self.seen_effects.add(t)
             env = dict(env)
-            env["a:" + atom] = self.node_term[id(s)]
+            for atom, term in self.node_term[id(s)]:
+                env["a:" + atom] = term
             return self.stmts(rest, env, ind)
         if s[0] == "loopmacro":
             # a loop whose body only moves data, listed as one effect: `json_array_foreach(a, i, x) <body>`
@@ -306,6 +309,33 @@ def generate(repo):
     emit(sk, "parse", [("copyNull", "Bool"), ("noDot1", "Bool"), ("noDot2", "Bool"), ("headFails", "Bool"), ("payloadFails", "Bool")],
          "jwt-verify.c `jwt_parse`: `noDot1` / `noDot2` = the scan met the NUL before the first / second dot; `headFails` / `payloadFails` = "
          "`jwt_parse_head` / `jwt_parse_payload` returned non-zero (they have written the message)")
+    # ---- __check_str_claim / __verify_claims ----
+    sk = Skeleton("__check_str_claim", find_body(ver, r"static\s+int\s+__check_str_claim\s*\(", "__check_str_claim"),
+                  atoms={"(checker->c->claims & claim)": ("bitOn", "bool"), "str": ("expectedNull", "ptr"), "(err != JWT_VALUE_ERR_NONE)": ("getFails", "bool"),
+                         "strcmp(str, jval->str_val)": ("equal", "ptr")},
+                  effects={"decl checker = jwt->checker", "decl jval", "decl str", "decl err", "str = jwt_checker_claim_get(checker, claim)",
+                           "jwt_set_GET_STR(&jval, claim_str)", "err = jwt_claim_get(jwt, &jval)"},
+                  rets={"0": "0", "1": "1"})
+    emit(sk, "checkStrClaim", [("bitOn", "Bool"), ("expectedNull", "Bool"), ("getFails", "Bool"), ("equal", "Bool")],
+         "jwt-verify.c `__check_str_claim`: 1 = the claim fails; `bitOn` = the claim is checked at all, `expectedNull` = the checker holds no expected string, "
+         "`getFails` = the token's claim is absent or not a string, `equal` = `strcmp` of the two is 0")
+    EOK, ENX = "(err == JWT_VALUE_ERR_NONE)", "(err != JWT_VALUE_ERR_NOEXIST)"
+    sk = Skeleton("__verify_claims", find_body(ver, r"static\s+jwt_claims_t\s+__verify_claims\s*\(", "__verify_claims"),
+                  atoms={"(checker->c->claims & JWT_CLAIM_EXP)": ("expOn", "bool"), "(checker->c->claims & JWT_CLAIM_NBF)": ("nbfOn", "bool"),
+                         EOK: ("?", "bool"), ENX: ("?", "bool"), "(jval->int_val <= (now - checker->c->exp))": ("expPast", "bool"),
+                         "(jval->int_val > (now + checker->c->nbf))": ("nbfFuture", "bool"),
+                         '__check_str_claim(jwt, JWT_CLAIM_ISS, "iss")': ("issFails", "bool"), '__check_str_claim(jwt, JWT_CLAIM_SUB, "sub")': ("subFails", "bool"),
+                         '__check_str_claim(jwt, JWT_CLAIM_AUD, "aud")': ("audFails", "bool")},
+                  effects={"decl checker = jwt->checker", "decl jval", "decl now = time(NULL)", "decl err", "decl failed = 0", 'jwt_set_GET_INT(&jval, "exp")',
+                           'jwt_set_GET_INT(&jval, "nbf")'},
+                  sets={"err = jwt_claim_get(jwt, &jval)": [(EOK, ["expGetOk", "nbfGetOk"]), (ENX, ["expGetOther", "nbfGetOther"])]},
+                  flag_effects={"failed |= JWT_CLAIM_EXP": "fExp", "failed |= JWT_CLAIM_NBF": "fNbf", "failed |= JWT_CLAIM_ISS": "fIss",
+                                "failed |= JWT_CLAIM_SUB": "fSub", "failed |= JWT_CLAIM_AUD": "fAud"},
+                  rets={"failed": "0"}, flags=("w", "fExp", "fNbf", "fIss", "fSub", "fAud"))
+    emit(sk, "verifyClaims", [("expOn", "Bool"), ("expGetOk", "Bool"), ("expGetOther", "Bool"), ("expPast", "Bool"), ("nbfOn", "Bool"), ("nbfGetOk", "Bool"),
+                              ("nbfGetOther", "Bool"), ("nbfFuture", "Bool"), ("issFails", "Bool"), ("subFails", "Bool"), ("audFails", "Bool")],
+         "jwt-verify.c `__verify_claims`: the flags are the bits of the returned mask (which checks failed); `expGetOk` = the INT get of `exp` returned NONE, "
+         "`expGetOther` = it returned something other than NOEXIST; likewise for nbf; `issFails` … = `__check_str_claim` returned non-zero")
     # ---- jwt_verify_complete: every exit returns the token object; the result says whether the signature was looked at ----
     sk = Skeleton("jwt_verify_complete", find_body(ver, r"\njwt_t\s*\*\s*jwt_verify_complete\s*\(", "jwt_verify_complete"),
                   atoms={"__verify_config_post(jwt, config, sig_len)": ("configPostFails", "bool"), "sig_len": ("sigEmpty", "ptr")},
